@@ -163,6 +163,15 @@ def cases(tier, seed):
     for j, nm in enumerate(sorted(_SHARED)):
         yield {'kind': 'shared', 'names': [nm], 'order': [0, 1, 2]}
         yield {'kind': 'shared', 'names': [nm], 'order': [[2, 1, 0], [1, 2, 0], [2, 0, 1]][j % 3]}
+    # one case of the three gives a symbol a value that is ill-formed where the suite's instruction uses it
+    jj = 0
+    for sym in sorted(_INVALIDATORS):
+        for nm in _INVALIDATORS[sym][1]:
+            for kbad, order in ((1, [0, 1, 2]), (0, [0, 1, 2]), (2, [1, 2, 0]), ('all', [2, 0, 1])):
+                jj += 1
+                if tier == 'quick' and jj % 3 == 0 and kbad != 'all':
+                    continue
+                yield {'kind': 'shared', 'names': [nm], 'order': order, 'invalid': {'k': kbad, 'sym': sym}}
     all_names = sorted(_SHARED)
     for j in range(8 if tier == 'quick' else 40):
         r2 = common.rng_for(seed, ID, 'shared', j)
@@ -1021,12 +1030,35 @@ _SHARED = {
     'def-in-suite': ('before-assert', 'def string S2 = @[L]@@[N]@', [('assert', "run % test @[S2]@ '=' @[L]@@[N]@")]),
     'def-path-in-suite': ('before-assert', 'def path P2 = -rel D e0.txt', [('assert', 'exists @[P2]@')]),
     'timeout': ('before-assert', 'timeout = @[N]@+100', []),  # observed through M2
+    # compositions (one composed object per suite instruction): sequences, && / ||, ! - with symbol-dependent operands
+    'seq-sym': ('assert', 'contents @[FNAME]@ : -transformed-by ( replace @[L]@ Q | char-case -to-lower ) '
+                          'equals <<EOF\nq\nEOF', []),
+    'seq-tt': ('assert', 'contents f@[N]@.txt : -transformed-by ( @[TT]@ | char-case -to-lower | identity ) '
+                         'equals <<EOF\nx@[N]@\nEOF', []),
+    'seq-3': ('assert', 'contents @[FNAME]@ : -transformed-by ( identity | replace @[L]@ @[N]@ | replace @[N]@ <@[N]@> ) '
+                        'equals <<EOF\n<@[N]@>\nEOF', []),
+    'matcher-and': ('assert', 'stdout ( @[TM]@ && num-lines == @[N]@ && ! num-lines == @[N]@0 )', []),
+    'matcher-or': ('assert', 'stdout ( num-lines == @[N]@0 || num-lines == @[N]@ )', []),
+    'line-matcher-and': ('assert', 'stdout -transformed-by filter ( @[LM]@ && contents matches @[RGX]@ ) equals @[LNL]@', []),
+    'file-matcher-and': ('assert', 'dir-contents . : -selection ( @[FM]@ && type file ) num-files == 1', []),
+    'int-matcher-and': ('assert', 'exit-code ( @[IM]@ && >= @[N]@ && ! > @[N]@ )', []),
     'cleanup-run': ('cleanup', 'run % test -f @[P]@', []),
     'cleanup-int': ('cleanup', 'run % test @[N]@ -eq @[N]@', []),
 }
 
 
-def _shared_files(names):
+# symbols whose value one case may define so that the suite's instruction is INVALID in that case only:
+# symbol -> (definition, names of the suite instructions that use the symbol where the value is ill-formed)
+_INVALIDATORS = {
+    'N': ('def string N = 1+', ['int-expr', 'int-expr-arith', 'num-lines', 'line-nums-1', 'line-nums-range',
+                                'line-nums-multi', 'line-num-matcher', 'matcher-and', 'matcher-or', 'int-matcher-and']),
+    'NEG': ('def string NEG = 1//0', ['line-nums-neg']),
+    'RGX': ("def string RGX = '('", ['regex-sym', 'line-matcher-and']),
+    'L': ("def string L = '['", ['regex-full', 'replace', 'seq-sym']),
+}
+
+
+def _shared_files(names, invalid=None):
     by_phase = {}
     for nm in names:
         ph, instr, _ = _SHARED[nm]
@@ -1041,7 +1073,13 @@ def _shared_files(names):
         for nm in names:
             for ph, instr in _SHARED[nm][2]:
                 own.setdefault(ph, []).append(instr)
-        t = '[setup]\n' + '\n'.join(_shared_case_defs(k)) + '\n'
+        defs = _shared_case_defs(k)
+        if invalid is not None and invalid['k'] in (k, 'all'):
+            bad_def = _INVALIDATORS[invalid['sym']][0]
+            head = bad_def.split('=')[0]
+            defs = [bad_def if dd.startswith(head + '=') else dd for dd in defs]
+            assert bad_def in defs
+        t = '[setup]\n' + '\n'.join(defs) + '\n'
         t += '[act]\n$ printf \'%s\'; exit %d\n' % (''.join(c + '\\n' for c in _LETTER[:k + 1]), k + 1)
         if 'timeout' in names:
             own.setdefault('assert', []).append('run % true c17-timeout-observer')
@@ -1058,8 +1096,15 @@ def _run_shared(case, ctx):
     viol, inconc = [], []
     R = _Runner(ctx, ses, viol, inconc)
     names = case['names']
-    suite, case_texts = _shared_files(names)
+    invalid = case.get('invalid')
+    suite, case_texts = _shared_files(names, invalid)
     order = case['order']
+
+    def want(k):
+        # a case that gives a symbol a value that is ill-formed where the suite's instruction uses it: that case - and
+        # only that case - is rejected before execution, wherever it comes in the run
+        return 'VALIDATION_ERROR' if invalid is not None and invalid['k'] in (k, 'all') else 'PASS'
+
     files = {'k%d.case' % k: t for k, t in enumerate(case_texts)}
     files['s.suite'] = suite.replace('<CASES>', '\n'.join('k%d.case' % k for k in order))
     d = ses.new_case_dir({})
@@ -1081,10 +1126,12 @@ def _run_shared(case, ctx):
         alone[k] = ident
         ctx.count('c17.shared_standalone_checks')
         evaluations += 1
-        if ident != 'PASS':
+        if invalid is not None:
+            ctx.count('c17.shared_invalid_value_checks')
+        if ident != want(k):
             # the absolute oracle: the case is consistent with its own definitions
             R.bad('shared[%s] k%d alone with --suite: %s, but every argument of the suite\'s instructions denotes '
-                  'this case\'s own values (must PASS)' % ('+'.join(names), k, ident),
+                  'this case\'s own values (must be %s)' % ('+'.join(names), k, ident, want(k)),
                   observed=r.brief(), **wit)
         if 'timeout' in names:
             ts = timeout_seen(r.calls)
@@ -1101,7 +1148,7 @@ def _run_shared(case, ctx):
             evaluations += 1
             classes.append(('shared', '+'.join(names) if len(names) == 1 else 'combo%d' % len(names), 'pos%d' % pos,
                             (got or ['-'])[0]))
-            if got != ['PASS']:
+            if got != [want(k)]:
                 R.bad('shared[%s] k%d at position %d of the suite run: %r; alone with the same suite: %s (the suite\'s '
                       'instruction must be evaluated with the symbols of the case it runs in)'
                       % ('+'.join(names), k, pos, got, alone.get(k)), observed=r.brief(), **wit)
